@@ -11,7 +11,7 @@ RULE = ("seeded swarm over all 37 built-in crops in calendar-day and thermal-tim
         "depth, harvest index, biomass and degree-day envelope is checked against the season's crop parameters. Non-trivial run: "
         "at least one in-season day with stress (early senescence, crop death, Tr < TrPot) or a restrictive layer / water table "
         "present; distinct = distinct configuration signatures")
-PROFILE = {"reactive_p": 0.3, "calendar_crop_p": 0.5, "custom_soil_p": 0.4, "restrictive_p": 0.6, "gw": 0.3, "gw_depths": [0.3, 0.45, 0.75, 1.0, 1.5, 2.5],
+PROFILE = {"reactive_p": 0.3, "calibration_param_p": 0.25, "calendar_crop_p": 0.5, "custom_soil_p": 0.4, "restrictive_p": 0.6, "gw": 0.3, "gw_depths": [0.3, 0.45, 0.75, 1.0, 1.5, 2.5],
            "event_kinds": ["drought", "dry_then_wet", "dry_then_wet", "heat_wave", "cold_snap", "storm", "et0_spike"], "events_per_year": 2.5,
            "crop_override_p": 0.4}
 
